@@ -87,6 +87,7 @@ type bias struct {
 	faultFree            bool
 	readFaultsOnly       bool     // store faults are transient read errors only (err / timeout on Get)
 	varyFrom             []string // if set: the Vary values plans are drawn from
+	pBare304             int      // chance that a plan answers validations with a minimal 304
 	pReuse, pReuseChange int      // a client sends an earlier request value again / after changing its selecting fields in place
 	sched                []string
 	stallPct             int
@@ -317,6 +318,8 @@ func (g *gen) plan(b *bias, resIdx, nRes int, vary string) RespPlan {
 	}
 	p.Change = g.chance(b.pChange)
 	p.No304 = g.chance(b.pNo304)
+	p.Bare304 = g.chance(b.pBare304)
+	p.VaryLines = strings.Contains(p.Vary, ",") && g.chance(25)
 	if g.chance(b.pLoc) {
 		p.Loc = pick(g, "rel", "abs", "cross", "netpath")
 		p.LocRes = g.IntN(nRes)
@@ -328,7 +331,7 @@ func (g *gen) plan(b *bias, resIdx, nRes int, vary string) RespPlan {
 	return p
 }
 
-var varyChoices = []string{"X-A", "X-A, X-B", "X-B, X-A", "Accept-Encoding", "Accept-Language", "Accept, Accept-Encoding", "X-Tenant", "Authorization"}
+var varyChoices = []string{"X-A", "X-A, X-B", "X-B, X-A", "Accept-Encoding", "Accept-Language", "Accept, Accept-Encoding", "X-Tenant", "Authorization", "X-A, *"}
 
 func (g *gen) resource(b *bias, i, n int) Resource {
 	host := "a.test"
@@ -618,7 +621,7 @@ func (g *gen) base(profile string, seed uint64, b *bias) *Scenario {
 		for i := 0; i < n; i++ {
 			k := pick(g, "get", "get", "set", "delete", "any")
 			if b.readFaultsOnly {
-				k = "get"
+				k = pick(g, "get", "get", "delete") // ... and deletes the store refuses
 			}
 			f := StoreFault{OpKind: k, Nth: g.IntN(12), Arg: g.IntN(5000)}
 			switch k {
@@ -631,6 +634,9 @@ func (g *gen) base(profile string, seed uint64, b *bias) *Scenario {
 				f.Kind = pick(g, "err", "timeout", "err-applied")
 			case "delete":
 				f.Kind = pick(g, "err", "timeout")
+				if b.readFaultsOnly {
+					f.Nth = g.IntN(4)
+				}
 			default:
 				f.Kind = pick(g, "err", "timeout", "corpus", "trunc")
 			}
@@ -703,7 +709,7 @@ var profiles = map[string]func(b *bias, g *gen){
 		b.freshKinds = []int{4, 2, 2, 4}
 	},
 	"inval": func(b *bias, g *gen) {
-		b.pUnsafe, b.pLoc, b.resources = 25, 40, [2]int{2, 3}
+		b.pUnsafe, b.pLoc, b.resources = 25, 60, [2]int{2, 3}
 		b.lifetimes = []int64{60, 300, 3600}
 		b.pNoCache, b.pNoStore, b.pMustReval, b.pErrStatus = 1, 1, 2, 10
 		b.clients = [2]int{1, 2}
@@ -715,9 +721,11 @@ var profiles = map[string]func(b *bias, g *gen){
 	},
 	"writeback": func(b *bias, g *gen) {
 		b.pMultiField = 40
+		b.pBare304 = 25
 		b.lifetimes = []int64{1, 2, 5, 10}
 		b.pValidator, b.pChange, b.pSWR, b.pVary, b.pVaryFlip, b.pNo304 = 95, 35, 35, 45, 3, 5
-		b.pNoCache, b.pNoStore, b.pReqCC = 2, 1, 8
+		b.pNoCache, b.pNoStore, b.pReqCC, b.pMustReval = 6, 1, 20, 12
+		b.reqCCs = []string{"no-cache", "no-cache", "max-stale", "max-age=0", "max-stale=100"} // validations of entries that are still fresh
 		b.resources, b.ops = [2]int{1, 1}, [2]int{5, 18}
 		b.freshKinds = []int{8, 2, 0, 0}
 		b.backends = []string{"mem", "mem", "fs"}
@@ -793,8 +801,9 @@ var profiles = map[string]func(b *bias, g *gen){
 		b.resources = [2]int{1, 2}
 	},
 	"oic": func(b *bias, g *gen) {
-		b.reqCCs = []string{"only-if-cached", "only-if-cached", "only-if-cached, max-stale", "only-if-cached, no-cache", "only-if-cached, max-age=0", "only-if-cached, min-fresh=5", "max-age=0"}
+		b.reqCCs = []string{"only-if-cached", "only-if-cached", "only-if-cached, max-stale", "only-if-cached, no-cache", "only-if-cached, max-age=0", "only-if-cached, min-fresh=5", "max-age=0", "only-if-cached, no-store", "no-store, only-if-cached"}
 		b.pReqCC = 55
+		b.pOtherMeth, b.pUnsafe, b.pRange = 8, 5, 8 // "under any circumstances": HEAD, unsafe methods and Range requests too
 		b.pNoCache, b.pMustReval, b.pSWR, b.pVary = 25, 35, 30, 20
 		b.lifetimes = []int64{0, 1, 2, 60}
 		b.faultFree, b.storeFaults = false, 1
